@@ -494,3 +494,5 @@ var testTLSConfig = func() *tls.Config {
 	}
 	return &tls.Config{Certificates: []tls.Certificate{{Certificate: [][]byte{der}, PrivateKey: key}}}
 }()
+
+func newBufReader(c net.Conn) *bufio.Reader { return bufio.NewReader(c) }
